@@ -225,3 +225,77 @@ Definition wf_config (c : config) : bool :=
   (0 <? c_T c) && (1 <=? nbackends c)%nat &&
   forallb (fun att => (1 <=? List.length att)%nat && (List.length att <=? 8)%nat) (c_backends c) &&
   (negb (c_http c) || forallb (forallb (fun b => negb (beh_eqb b Incomplete || beh_eqb b NilResp))) (c_backends c)).
+
+(* ---- the nesting as data --------------------------------------------------------------
+   What defaultFactory.New / newMulti / newStack and the router handler factories wire up, as
+   the list of context derivations between the context handed in and a backend call, outermost
+   first.  [build] replays such a list; it is defined for ANY list of derivations, not only
+   for those the factory can produce. *)
+Inductive stage :=
+| StT (t : nat) (now d : Z)      (* context.WithTimeout(ctx, d) executed at [now], cancel function t *)
+| StC (t : nat).                 (* context.WithCancel(ctx), cancel function t *)
+
+Fixpoint build (base : ctx) (st : list stage) : ctx :=
+  match st with
+  | [] => base
+  | StT t now d :: r => build (with_timeout base t now d) r
+  | StC t :: r => build (with_cancel base t) r
+  end.
+
+Definition stage_tok (s : stage) : nat := match s with StT t _ _ => t | StC t => t end.
+
+(* the deadline a chain of derivations ends with: the minimum over the base's deadline and
+   now + d of every WithTimeout on the way *)
+Fixpoint min_dl (a : option Z) (st : list stage) : option Z :=
+  match st with
+  | [] => a
+  | StT _ now d :: r => min_dl (Some (omin a (now + d))) r
+  | StC _ :: r => min_dl a r
+  end.
+
+(* the context the outermost derivation starts from: the one handed in, except under gin,
+   whose *gin.Context neither carries the request's deadline nor is ever done *)
+Definition base_ctx (c : config) : ctx :=
+  match c_level c with LGin => background | _ => parent_ctx c end.
+
+Definition opt_stage (b : bool) (s : stage) : list stage := if b then [s] else [].
+
+(* router handler, merge, part, concurrent stage, attempt - each present or not *)
+Definition stages (F : factors) (c : config) (clk : clock) (i j : nat) : list stage :=
+  opt_stage (routed c) (StT tok_router (clk SRouter) (c_T c)) ++
+  opt_stage (multi c) (StT tok_merge (clk SMerge) (reduced (fm_num F) (fm_den F) (c_T c))) ++
+  opt_stage (multi c && negb (c_seq c)) (StC (tok_part i)) ++
+  opt_stage (concurrent c i) (StT (tok_conc i) (clk (SConc i)) (reduced (fc_num F) (fc_den F) (c_T c))) ++
+  opt_stage (concurrent c i) (StC (tok_att i j)).
+
+(* the deadlines that bound a call of backend i, as a plain list: the one handed in (not under
+   gin), the router's, the merge's, the concurrent stage's *)
+Definition frame_deadlines (F : factors) (c : config) (clk : clock) (i : nat) : list Z :=
+  match base_ctx c with [] => [] | f :: _ => match dl f with Some p => [p] | None => [] end end ++
+  (if routed c then [clk SRouter + c_T c] else []) ++
+  (if multi c then [clk SMerge + reduced (fm_num F) (fm_den F) (c_T c)] else []) ++
+  (if concurrent c i then [clk (SConc i) + reduced (fc_num F) (fc_den F) (c_T c)] else []).
+
+Fixpoint lmin (l : list Z) : option Z :=
+  match l with
+  | [] => None
+  | x :: r => match lmin r with None => Some x | Some y => Some (Z.min x y) end
+  end.
+
+(* the contexts of the derived frames of a chain, innermost last: what one finds walking up from
+   a backend call's context to (excluding) the context handed in *)
+Fixpoint derived_ctxs (base : ctx) (st : list stage) : list ctx :=
+  match st with
+  | [] => []
+  | StT t now d :: r => with_timeout base t now d :: derived_ctxs (with_timeout base t now d) r
+  | StC t :: r => with_cancel base t :: derived_ctxs (with_cancel base t) r
+  end.
+
+(* every derived frame's context is done *)
+Definition chain_done (cs : list nat) (now : Z) (base : ctx) (st : list stage) : bool :=
+  forallb (done cs now) (derived_ctxs base st).
+
+(* number of contexts the pipeline derives on the way to attempt j of backend i *)
+Definition depth (c : config) (i : nat) : nat :=
+  ((if routed c then 1 else 0) + (if multi c then 1 else 0) + (if multi c && negb (c_seq c) then 1 else 0) +
+   (if concurrent c i then 2 else 0))%nat.
